@@ -56,7 +56,7 @@ NEW_CAPS = [(0x0214, b"\x03"), (0x0215, b"\x02"), (0x0212, b"\x00"), (0x021A, b"
 
 
 def run(plan):
-    s = Session(plan)
+    s = Session(plan, max_iterations=6000)
     w = s.world
     dev = s.dev
     res = Result()
